@@ -1,4 +1,5 @@
 pub mod c02;
+pub mod c03;
 pub mod c05;
 pub mod c06;
 pub mod c07;
@@ -14,7 +15,7 @@ pub mod treecheck;
 use crate::core::Check;
 
 pub fn registry() -> Vec<&'static dyn Check> {
-    vec![&session::C01, &c02::C02, &session::C04, &c05::C05, &c06::C06, &c07::C07, &c08::C08 { threads_only: false }, &c08::C08 { threads_only: true }, &c09::C09, &c10::C10, &c11::C11, &c12::C12, &c13::C13]
+    vec![&session::C01, &c02::C02, &c03::C03, &session::C04, &c05::C05, &c06::C06, &c07::C07, &c08::C08 { threads_only: false }, &c08::C08 { threads_only: true }, &c09::C09, &c10::C10, &c11::C11, &c12::C12, &c13::C13]
 }
 
 pub fn find(id: &str) -> Option<&'static dyn Check> {
